@@ -693,6 +693,34 @@ theorem mergeSeq_depth_bounded (maxDepth : Nat) (hm : 1 ≤ maxDepth) (vs : List
         omega)
     omega
 
+/-- the accounting has to look at ALL operands: with the first `MergeSeq` operand only, a loop that puts
+    a fresh concatenation in front of its accumulator (`acc = ([i] + [i]) + acc`) keeps the stored depth
+    at 2 while the real nesting grows with every round — no bound -/
+theorem first_operand_depth_unbounded (maxDepth : Nat) (hm : 2 ≤ maxDepth) (k : Nat) :
+    (Legacy.freshFirst maxDepth (k + 1)).stored = 2 ∧ k + 1 ≤ (Legacy.freshFirst maxDepth (k + 1)).real := by
+  have hfresh : Legacy.mkMergeSeqFirst maxDepth [.leaf, .leaf] = .node 1 [.leaf, .leaf] := by
+    simp [Legacy.mkMergeSeqFirst, Legacy.depthForValuesFirst]
+    omega
+  induction k with
+  | zero =>
+    simp only [Legacy.freshFirst, hfresh]
+    have : Legacy.mkMergeSeqFirst maxDepth [MS.node 1 [.leaf, .leaf], .leaf] = .node 2 [MS.node 1 [.leaf, .leaf], .leaf] := by
+      simp [Legacy.mkMergeSeqFirst, Legacy.depthForValuesFirst, MS.stored]
+      omega
+    rw [this]
+    simp [MS.stored, MS.real, realMax]
+  | succ k ih =>
+    have hstep : Legacy.freshFirst maxDepth (k + 1 + 1) =
+        .node 2 [MS.node 1 [.leaf, .leaf], Legacy.freshFirst maxDepth (k + 1)] := by
+      conv => lhs; unfold Legacy.freshFirst
+      rw [hfresh]
+      simp [Legacy.mkMergeSeqFirst, Legacy.depthForValuesFirst, MS.stored]
+      omega
+    rw [hstep]
+    refine ⟨rfl, ?_⟩
+    simp only [MS.real, realMax]
+    omega
+
 /-- the limit regenerated from `merge_object.rs` is usable -/
 theorem mergeSeq_limit : 1 ≤ Gen.mergeSeqMaxDepth ∧ Gen.mergeSeqMaxDepth ≤ 64 := by decide
 
